@@ -81,8 +81,10 @@ class CborArray(AbstractCborStruct):
         # unwrap tagged array
         while isinstance(s, cbor2.CBORTag):
             s = s.value
+        if not isinstance(s, (list, tuple)):
+            raise DecodeError(f'{type(self).__name__} must be a CBOR array, got {type(s).__name__}')
         # do not edit array directly
-        s = copy.copy(s)
+        s = list(s)
         for defn in self.fields_desc:
             # None is a legitimate CBOR value, so need to detect
             # if array was modified
